@@ -4,6 +4,7 @@ import (
 	"fmt"
 	"go/ast"
 	"go/token"
+	"go/types"
 	"sort"
 	"strings"
 )
@@ -32,23 +33,70 @@ type ExportedAnalysis struct {
 	// AllowUnused: entries that matched nothing (stale entries)
 	AllowUsed   int
 	AllowUnused []string
+	// AllowDetail: every entry with the number of operations it covered
+	AllowDetail []AllowUse
 	Skipped     []string
+}
+
+// AllowUse is one allow-list entry and how many operations it covered.
+type AllowUse struct {
+	Fn, Kind, Desc, Why string
+	Used                int
 }
 
 // AnalyseWith regenerates the skeletons of every function of the packages in scope
 // (import path relative to the module -> optional file filter on the path relative to the
 // repository) with the given allow list text (format of allow.txt).
 func AnalyseWith(repo string, scope map[string]func(file string) bool, allowText string) (*ExportedAnalysis, error) {
-	al, err := parseAllow(allowText)
-	if err != nil {
-		return nil, err
-	}
+	return AnalyseDerived(repo, scope, allowText, nil)
+}
+
+// LoadedPackage is one type-checked package of the scope as handed to a derive callback.
+type LoadedPackage struct {
+	Rel   string // import path relative to the module
+	Name  string // package name
+	Files []*ast.File
+	Names []string // file names relative to the repository, parallel to Files
+	InUse []bool   // whether the file passes the scope's filter (and is not generated)
+	Info  *types.Info
+	Pkg   *types.Package
+}
+
+// FuncName is the name the translator gives a declared function ("pkg.(*T).M", "pkg.f");
+// function literals inside it are "<name>$<n>", n counting in ast.Inspect order from 1.
+func FuncName(pkgName string, fd *ast.FuncDecl) string { return pkgName + "." + recvName(fd) + fd.Name.Name }
+
+// AnalyseDerived is AnalyseWith with a callback that sees the type-checked packages first and
+// returns further allow-list text (same format): entries *derived from the source on every
+// run* by a caller-side recogniser rather than reviewed by hand.
+func AnalyseDerived(repo string, scope map[string]func(file string) bool, allowText string,
+	derive func(fset *token.FileSet, pkgs []LoadedPackage) (string, error)) (*ExportedAnalysis, error) {
 	fset := token.NewFileSet()
 	pkgs, err := load(repo, fset, func(path string) bool {
 		rel := strings.TrimPrefix(strings.TrimPrefix(path, modPath), "/")
 		_, ok := scope[rel]
 		return ok && (path == modPath || strings.HasPrefix(path, modPath+"/"))
 	})
+	if err != nil {
+		return nil, err
+	}
+	if derive != nil {
+		var lps []LoadedPackage
+		for _, l := range pkgs {
+			rel := strings.TrimPrefix(strings.TrimPrefix(l.Path, modPath), "/")
+			lp := LoadedPackage{Rel: rel, Name: l.Pkg.Name(), Files: l.Files, Names: l.Names, Info: l.Info, Pkg: l.Pkg}
+			for i, file := range l.Files {
+				lp.InUse = append(lp.InUse, (scope[rel] == nil || scope[rel](l.Names[i])) && !ast.IsGenerated(file))
+			}
+			lps = append(lps, lp)
+		}
+		extra, err := derive(fset, lps)
+		if err != nil {
+			return nil, err
+		}
+		allowText += "\n" + extra
+	}
+	al, err := parseAllow(allowText)
 	if err != nil {
 		return nil, err
 	}
@@ -108,6 +156,7 @@ func AnalyseWith(repo string, scope map[string]func(file string) bool, allowText
 	}
 	for _, e := range al.entries {
 		res.AllowUsed += e.used
+		res.AllowDetail = append(res.AllowDetail, AllowUse{e.fn, e.kind, e.desc, e.why, e.used})
 		if e.used == 0 {
 			res.AllowUnused = append(res.AllowUnused, e.fn+" "+e.kind+" "+e.desc)
 		}
